@@ -66,7 +66,11 @@ def _sys(case):
 
 
 def _m(A, system):
-    return float(sut(D.misorientation_index, np.ascontiguousarray(A), system))
+    A = np.ascontiguousarray(A)
+    before = A.copy()
+    m = float(sut(D.misorientation_index, A, system))
+    require(np.array_equal(A, before), "misorientation_index modified the orientation array")
+    return m
 
 
 def _nontrivial(A, Q):
